@@ -178,16 +178,21 @@ FullSync<'a, ItemType, OgreAllocatorType, BUFFER_SIZE, MAX_STREAMS> {
 
     #[inline(always)]
     fn send_derived(&self, ogre_arc_item: &OgreArc<ItemType, OgreAllocatorType>) -> bool {
+        #[cfg(feature = "verif")] crate::verif::point(crate::verif::MULTI_FANOUT_BEFORE_COUNT);
         let running_streams_count = self.streams_manager.running_streams_count();
         unsafe { ogre_arc_item.increment_references(running_streams_count) };
+        #[cfg(feature = "verif")] crate::verif::point(crate::verif::MULTI_FANOUT_AFTER_INCREMENT);
         let used_streams = self.streams_manager.used_streams();
         for i in 0..running_streams_count {
+            #[cfg(feature = "verif")] crate::verif::point(crate::verif::MULTI_FANOUT_BEFORE_ENTRY);
             let stream_id = *unsafe { used_streams.get_unchecked(i as usize) };
             if stream_id != u32::MAX {
                 let dispatcher_manager = unsafe { self.dispatcher_managers.get_unchecked(stream_id as usize) };
+                #[cfg(feature = "verif")] crate::verif::point(crate::verif::MULTI_FANOUT_BEFORE_PUBLISH);
                 match dispatcher_manager.publish_movable(unsafe { ogre_arc_item.raw_copy() }).0 {
                     Some(len_after_publishing) => {
                         if len_after_publishing.get() <= 1 {
+                            #[cfg(feature = "verif")] crate::verif::point(crate::verif::MULTI_FANOUT_BEFORE_WAKE);
                             self.streams_manager.wake_stream(stream_id);
                         }
                     },
